@@ -6,6 +6,7 @@ import Mathlib.LinearAlgebra.Matrix.Determinant.Basic
 import Mathlib.LinearAlgebra.Matrix.Adjugate
 import Mathlib.LinearAlgebra.Matrix.Notation
 import Mathlib.Tactic.Ring
+import Mathlib.Analysis.SpecialFunctions.Sqrt
 import Mathlib.Tactic.NormNum
 import Mathlib.LinearAlgebra.Matrix.ToLin
 import Mathlib.LinearAlgebra.Matrix.DotProduct
@@ -233,6 +234,34 @@ theorem ex2Basis_entries : blockOf 4 3 ex2Basis = !![1, 0, 1; 0, -1, 1; -1/2, 0,
 
 theorem ex2Basis_independent : IsUnit ((blockOf 4 3 ex2Basis)ᵀ * blockOf 4 3 ex2Basis).det := by
   rw [ex2Basis_entries, isUnit_iff_ne_zero, Matrix.det_fin_three]
+  simp [Matrix.mul_apply, Fin.sum_univ_four]
+  norm_num
+
+/-- cos and sin at the multiples `x·π/2` of a quarter turn as exact tables over ℝ (`x` integer-valued, |x| ≤ 3) -/
+noncomputable def cosR (x : ℝ) : ℝ := if x = 0 then 1 else if x = 2 ∨ x = -2 then -1 else 0
+noncomputable def sinR (x : ℝ) : ℝ := if x = 1 ∨ x = -3 then 1 else if x = -1 ∨ x = 3 then -1 else 0
+
+/-- the library default `normalize=True` on a PARTIAL mask: a 2 × 2 array raveled in C order, samples (ρ, θ) = (1, 0), (1, π/2), (1/2, π), (0, 0), the
+last one OUTSIDE the mask; requested modes [1, 2, 3] (piston, x-tilt, y-tilt) with Noll's normalisation (√2·√(n+1) = 2 for the tilts), `√` the real
+square root; angles in units of π/2 -/
+def ex3Modes : ℕ → ℕ := fun a => if a = 0 then 1 else if a = 1 then 2 else 3
+noncomputable def ex3Rho : ℕ → ℝ := fun s => if s = 0 then 1 else if s = 1 then 1 else if s = 2 then 1 / 2 else 0
+noncomputable def ex3Theta : ℕ → ℝ := fun s => if s = 0 then 0 else if s = 1 then 1 else if s = 2 then 2 else 0
+def ex3Mask : ℕ → Bool := fun s => decide (s < 3)
+noncomputable def ex3Basis : ℕ → ℕ → ℝ := zBasisX (fun k => Real.sqrt k) cosR sinR ex3Modes true ex3Rho ex3Theta ex3Mask
+
+theorem ex3Basis_entries : blockOf 4 3 ex3Basis = !![1, 2, 0; 1, 0, -2; 1, -1, 0; 0, 0, 0] := by
+  have n1 : nollN 1 = 0 ∧ nollM 1 = 0 := by decide
+  have n2 : nollN 2 = 1 ∧ nollM 2 = 1 := by decide
+  have n3 : nollN 3 = 1 ∧ nollM 3 = -1 := by decide
+  have h22 : Real.sqrt 2 * Real.sqrt 2 = 2 := Real.mul_self_sqrt (by norm_num)
+  ext r c
+  fin_cases r <;> fin_cases c <;>
+    simp [blockOf, ex3Basis, zBasisX, zernAt, Gen.zernCore, ex3Modes, ex3Rho, ex3Theta, ex3Mask, n1, n2, n3, radialEval, radialCoeff,
+      Gen.radialNum, Gen.radialDen, Gen.fact, powK, cosR, sinR, List.range, List.range.loop, h22] <;> norm_num [h22]
+
+theorem ex3Basis_independent : IsUnit ((blockOf 4 3 ex3Basis)ᵀ * blockOf 4 3 ex3Basis).det := by
+  rw [ex3Basis_entries, isUnit_iff_ne_zero, Matrix.det_fin_three]
   simp [Matrix.mul_apply, Fin.sum_univ_four]
   norm_num
 
